@@ -34,7 +34,7 @@ func (e *C10) Plan(tier string, seed uint64) int {
 	if tier == "thorough" {
 		return 200000
 	}
-	return 12000
+	return 40000
 }
 func (e *C10) MinNontrivial(tier string) int { return 100 }
 
